@@ -90,7 +90,13 @@ class World:
         kw.setdefault('alive', len(self.alive()))
         self.obs.append(kw)
 
-    def statement(self, ident: str) -> str:
+    def statement(self, ident: str):
+        if ident == '@unpicklable':
+            # a callable that cannot be sent to the child (a locally defined function): the child process is spawned,
+            # the call never reaches it, the run ends with the pickling error
+            def local_function():
+                return None
+            return local_function
         return SCRIPT.format(ctl=self.ctl, ident=ident)
 
 
@@ -158,7 +164,9 @@ def make_plugin(w: World, tag: str = 'G'):
                 try:
                     await gate.wait()
                 finally:
-                    w.log(k='gate_exit', hook=hook, n=n, task=task_name(), released=gate.is_set())
+                    ra2 = ctx.run_arg if ctx is not None else None
+                    w.log(k='gate_exit', hook=hook, n=n, task=task_name(), released=gate.is_set(),
+                          run_arg=ra2 is not None, run_no=(ra2.run_no if ra2 else None), entered_run_no=info.get('run_no'))
         impl.__name__ = hook
         # signature: apluggy passes only the arguments an implementation names
         import inspect
